@@ -48,6 +48,7 @@ def build_graph(adj, kinds, ext, style):
     from dask._task_spec import Alias, DataNode, Task, TaskRef
     n = len(adj)
     K = [f"k{i}" if i % 3 else ("x", i) for i in range(n)]
+    K[0] = [0, "", ()][n % 3]          # one falsy key per graph: a key's truth value must not matter
     dsk = {}
     for i in range(n):
         deps = [K[j] for j in adj[i]]
